@@ -95,7 +95,7 @@ structure State where
   /-- history: replies accepted into a pending query as (qid, peer, content) -/
   returned : List (Nat × Nat × Content) := []
   /-- history: the same replies with the key their record carried, as (qid, peer, content, record key).
-  The handlers never compare that key with the key of the pending query. -/
+  (`accumulate_get_record_found` drops a reply carrying another key iff `Gen.foundChecksKey`.) -/
   keys : List (Nat × Nat × Content × Nat) := []
   /-- history: everything put on (or dropped from) a caller's channel -/
   delivered : List (Nat × Outcome) := []
@@ -186,13 +186,34 @@ def txsOf : Content → Option (List Nat)
   | .txs l => some l
   | _ => none
 
-/-- union of the transactions of all versions that decode as transactions -/
+/-! Transaction ids: `2*b` and `2*b+1` are two transactions with identical owner, parents, content and outputs
+(base `b`) that differ only in the signature (the harness numbers them in `Ord` order). -/
+
+/-- `BTreeSet<Transaction>::insert`: ordered by the derived `Ord` over all fields, or — with a hand-written `Ord`
+that leaves the signature out (`Gen.txOrdComparesAllFields = false`) — an element that compares equal to a present
+one (same base) is not inserted. -/
+def txInsert (x : Nat) (acc : List Nat) : List Nat :=
+  if txOrdComparesAllFields then insertSorted x acc
+  else if acc.any (fun y => y / 2 == x / 2) then acc else insertSorted x acc
+
+def txUnionInto (acc : List Nat) (l : List Nat) : List Nat := l.foldl (fun a x => txInsert x a) acc
+
+/-- `accumulate_get_record_found`, split branch: `accumulated_transactions.extend(transactions)` on a `BTreeSet` -/
 def txAdd (acc : List Nat) (c : Content) : List Nat :=
+  match txsOf c with
+  | some l => txUnionInto acc l
+  | none => acc
+
+def txUnion (cs : List Content) : List Nat := cs.foldl txAdd []
+
+/-- `handle_split_record_error`: the same on a `HashSet<Transaction>` (derived `Eq`/`Hash` over all fields; the
+result is observed sorted) -/
+def txAddH (acc : List Nat) (c : Content) : List Nat :=
   match txsOf c with
   | some l => unionInto acc l
   | none => acc
 
-def txUnion (cs : List Content) : List Nat := cs.foldl txAdd []
+def txUnionH (cs : List Content) : List Nat := cs.foldl txAddH []
 
 /-- Send `o` to the senders in order; the first dropped receiver makes the handler return early, which drops
 the remaining senders (their live receivers observe `closed`). -/
@@ -252,6 +273,8 @@ def step (s : State) : Op → State × Out
     match findQ qid s.pending with
     | none => (s, { ret := .dropped })
     | some q =>
+      -- `if peer_record.record.key != *key { return Ok(()) }`: a reply carrying another key is dropped before any use
+      if foundChecksKey && (fk.getD q.key != q.key) then (s, {}) else
       let r := addPeer q.results c p
       let s1 := { s with returned := s.returned ++ [(qid, p, c)], keys := s.keys ++ [(qid, p, c, fk.getD q.key)] }
       if reached r.2 (quorumOf q.cfg) then
@@ -347,7 +370,7 @@ def mergeSplit (order : List Content) : Option Content :=
     | .chunk => none
     | .paid => none
     | .txn =>
-      let u := txUnion same
+      let u := txUnionH same
       if 1 < u.length then some (.txs u) else none
     | .reg =>
       match same.filter regValid with
